@@ -128,13 +128,18 @@ func Finish(m Meta, tier string, seed int64, res *Result, start time.Time) int {
 	var replayPaths []string
 	rdir := filepath.Join(VerifDir, "replays", m.ID)
 	written := 0
+	perSig := map[string]int{}
 	for _, v := range unknown {
 		if v.Inputs == nil && v.Events == nil {
 			continue
 		}
-		if written >= 20 {
+		if written >= 60 {
 			break
 		}
+		if perSig[v.Signature] >= 3 {
+			continue
+		}
+		perSig[v.Signature]++
 		os.MkdirAll(rdir, 0755)
 		p := filepath.Join(rdir, v.Hash+".json")
 		data, _ := json.MarshalIndent(v, "", " ")
